@@ -168,6 +168,7 @@ def write_block(stmts, eff, kern):
 
 # ------------------------------------------------------------ key derivation
 SER_ENV = Env([
+    ('isinstance(obj, CallableValue)', 'is_cval', 'bool'),
     ('callable(obj)', 'is_callable', 'bool'),
     ("hasattr(obj, '__name__')", 'has_name', 'bool'),
     ('isinstance(obj, dict)', 'is_dict', 'bool'),
@@ -236,13 +237,14 @@ def gen_key(tree, out):
     # what the names used by the dispatch chain mean
     mod_src = [ast.unparse(s) for s in tree.body]
     for need in ('from datamatrix.py3compat import *', 'from datamatrix import DataMatrix, convert as cnv',
+                 'from datamatrix._datamatrix._callable_values import CallableValue',
                  'try:\n    from collections.abc import Sequence\nexcept ImportError:\n    from collections import Sequence',
                  'import hashlib'):
         if need not in mod_src:
             raise TranslationError('_memoize.py: missing module-level `%s`' % need.split('\n')[0])
     for s in tree.body:
         for t in (s.targets if isinstance(s, ast.Assign) else []):
-            if isinstance(t, ast.Name) and t.id in ('Sequence', 'DataMatrix', 'cnv', 'basestring', 'hashlib', 'repr',
+            if isinstance(t, ast.Name) and t.id in ('Sequence', 'DataMatrix', 'cnv', 'basestring', 'hashlib', 'repr', 'CallableValue',
                                                       'callable', 'isinstance', 'hasattr', 'sorted'):
                 raise TranslationError('_memoize.py: module-level rebinding of %s' % t.id)
 
@@ -250,7 +252,7 @@ def gen_key(tree, out):
     if [a.arg for a in fn.args.args] != ['self', 'obj'] or fn.args.vararg or fn.args.kwarg or fn.decorator_list:
         raise TranslationError('_serialize_obj: signature')
     out.append('(* _serialize_obj: the dispatch chain *)\n'
-               'Definition k_serialize_obj (is_callable has_name is_dict is_seq is_str is_dm : bool) : sbranch :=\n  %s.\n\n'
+               'Definition k_serialize_obj (is_cval is_callable has_name is_dict is_seq is_str is_dm : bool) : sbranch :=\n  %s.\n\n'
                % ser_block(body_nodoc(fn)))
 
     fn = find_function(tree, 'memoize._serialize_args')
